@@ -17,6 +17,8 @@ CONSTANTS
   FixModeOnOpen = TRUE
   AllowHoles = TRUE
   FixHoles = FALSE
+  AllowFailCommit = FALSE
+  FixFailedCommit = TRUE
   AllowFreeReuse = FALSE
   AllowFromWal = FALSE
   FixModeSwitch = TRUE
